@@ -169,19 +169,32 @@ def d3(chk, prog):
             and same(c["loc.end"].v[0], e) and same(c["seg.mean"].v[0], v) and (not has_probes or same(c["num.mark"].v[0], p)) and same(df.cols["start"].v[0], s)
         tb.cell(ok, dict(probes=has_probes, columns=[k for k in c if not k.startswith("__")], row={k: repr(x.v[0]) for k, x in c.items() if not k.startswith("__")}))
     tb.done("SEG rows are not (ID, chrom, start+1, end, [probes], log2)")
-    fw = prog.fn("skgenome.tabio.seg.write_seg")
-    gens = [g for n in own_nodes(fw.node) if isinstance(n, (ast.GeneratorExp, ast.ListComp)) for g in n.generators
-            if isinstance(g.iter, ast.Call) and norm(g.iter.func) in ("zip_longest", "zip") and [norm(a) for a in g.iter.args] == ["dframes", "sids"]]
-    ok = len(gens) == 1 and isinstance(gens[0].target, ast.Tuple) and [norm(t) for t in gens[0].target.elts] == ["subframe", "sid"] and \
-        any(isinstance(n, ast.Call) and norm(n.func) == "format_seg" and [norm(a) for a in n.args] == ["first", "first_sid", "chrom_ids"] for n in own_nodes(fw.node)) and \
-        any(isinstance(n, ast.Call) and norm(n.func) == "format_seg" and [norm(a) for a in n.args] == ["subframe", "sid", "chrom_ids"] for n in own_nodes(fw.node))
-    chk.decide(ok, "seg-columns", "write_seg pairs each frame with its sample id in order", f"{fw.qn}::pairing", fw.loc(), "write_seg must format (frame, id) pairs taken in order from the two lists")
     fe = prog.fn(f"{EXP}.export_seg")
-    ok = any(isinstance(n, ast.Call) and norm(n.func) == "tabio.seg.write_seg" and [norm(a) for a in n.args] == ["dframes", "sample_ids", "chrom_ids"] for n in own_nodes(fe.node)) and \
-        any(isinstance(n, ast.Assign) and norm(n.targets[0]) == "(dframes, sample_ids)" and "zip(*" in norm(n.value) and "_load_seg_dframe_id(fname) for fname in sample_fnames" in norm(n.value) for n in own_nodes(fe.node))
-    fl = prog.fn(f"{EXP}._load_seg_dframe_id")
-    ok = ok and any(norm(r.value) == "(segarr.data, segarr.sample_id)" for r in own_nodes(fl.node) if isinstance(r, ast.Return))
-    chk.decide(ok, "seg-columns", "export_seg passes every file's (table, sample id) in file order", f"{fe.qn}::inputs", fe.loc(), "export_seg must hand write_seg the tables and ids of the given files, in order")
+    tb2 = Table(chk, "seg-columns", "export_seg: every file's rows under that file's sample id, in file order (1..3 files, with an empty table in any position)", fe.loc(), fe.qn)
+    for sizes in ([2], [0], [2, 1], [0, 1], [2, 0, 1], [1, 2, 0], [1, 1, 1]):
+        W.reset()
+        files = [f"f{i}.cns" for i in range(len(sizes))]
+        tables = {}
+        for i, (f, n) in enumerate(zip(files, sizes)):
+            rows = [dict(chromosome="chr1", start=Term.sym(f"s{i}_{j}", 0, INF, True), end=Term.sym(f"e{i}_{j}", 0, INF, True), gene="-", log2=Term.sym(f"v{i}_{j}"), probes=3 + j) for j in range(n)]
+            g = make_ga("CopyNumArray", rows, {"sample_id": f"S{i}"}, exact=True)
+            if not rows:
+                g.data = DF({c: Vec([], aligned=True) for c in ("chromosome", "start", "end", "gene", "log2", "probes")}, 0)
+                g.data.exact = True
+            tables[f] = g
+        model = Model()
+        model.prims["cnvlib.cmdutil.read_cna"] = lambda it, fname, *a, **k: tables[fname]
+        it = Interp(prog, model)
+        out = tb2.guard(lambda: it.run(fe.qn, [files, False]), f"table sizes {sizes}")
+        if out is None:
+            continue
+        want = [(f"S{i}", f"s{i}_{j}+1") for i, n in enumerate(sizes) for j in range(n)]
+        got = None
+        if isinstance(out, DF) and "ID" in out.cols and "loc.start" in out.cols:
+            got = list(zip(out.cols["ID"].v, out.cols["loc.start"].v))
+        ok = got is not None and len(got) == len(want) and all(g[0] == w[0] and same(g[1], t_add(Term.sym(w[1][:-2]), Term.const(1))) for g, w in zip(got, want))
+        tb2.cell(ok, dict(table_sizes=sizes, got=[(a, repr(b)) for a, b in got] if got is not None else repr(out)[:80], want=want))
+    tb2.done("export seg does not list every sample's segments under that sample's own id, in file order")
 
 
 def d4(chk, prog):
@@ -254,6 +267,10 @@ MUTANTS = [
     dict(name="vcf: END from start", file=_E, old='            f"END={out_row.end}",', new='            f"END={out_row.start}",'),
     dict(name="vcf: sexes swapped at absolute_expect", file=_E, old='        abs_expect = call.absolute_expect(segments, ploidy, diploid_parx_genome, is_sample_female)\n    else:', new='        abs_expect = call.absolute_expect(segments, ploidy, diploid_parx_genome, is_haploid_x_reference)\n    else:'),
     dict(name="seg: probes not renamed", file="skgenome/tabio/seg.py", old='        rename_cols["probes"] = "num.mark"  # or num_probes\n', new=""),
+    dict(name="seeded C20c: export_seg drops empty tables, ids no longer paired", file="cnvlib/export.py", old="    out_table = tabio.seg.write_seg(dframes, sample_ids, chrom_ids)\n", new="    dframes = [dframe for dframe in dframes if len(dframe)]\n    out_table = tabio.seg.write_seg(dframes, sample_ids, chrom_ids)\n"),
+    dict(name="export_seg reverses the ids", file="cnvlib/export.py", old="    out_table = tabio.seg.write_seg(dframes, sample_ids, chrom_ids)\n", new="    out_table = tabio.seg.write_seg(dframes, sample_ids[::-1], chrom_ids)\n"),
+    dict(name="twin: export_seg builds the two lists with a loop", expect="silent", file="cnvlib/export.py", old="    dframes, sample_ids = zip(*(_load_seg_dframe_id(fname) for fname in sample_fnames))\n", new="    dframes, sample_ids = [], []\n    for fname in sample_fnames:\n        table, name = _load_seg_dframe_id(fname)\n        dframes.append(table)\n        sample_ids.append(name)\n"),
+    dict(name="twin: write_seg pairs with plain zip", expect="silent", edits=[("skgenome/tabio/seg.py", "            for subframe, sid in zip_longest(dframes, sids)", "            for subframe, sid in zip(dframes, sids)")]),
     dict(name="seg: zip instead of zip_longest swapped order", file="skgenome/tabio/seg.py", old="            for subframe, sid in zip_longest(dframes, sids)", new="            for sid, subframe in zip_longest(dframes, sids)"),
     dict(name="merge: coordinate raise dropped", file=_E, old='            raise ValueError(f"Mismatched row coordinates in {fname}")', new='            logging.warning(f"Mismatched row coordinates in {fname}")'),
     dict(name="merge: duplicate id overwrites", file=_E, old='        if cnarr.sample_id in out_table.columns:\n            raise ValueError(f"Duplicate sample ID: {cnarr.sample_id}")\n', new=""),
